@@ -8,6 +8,7 @@ import c01
 from pathsum import ERR, OK, SOME, St, show_term
 from skeleton import P, pid_name
 
+RERUN_ON_CONFIGS = ("dfm", "std")
 LEVEL = "other"
 RULE_TEXT = ("C11-W: is_whitespace denotes exactly {0..=9} U {11..=32} (set equality over all 256 bytes) and every "
              "white-space recogniser in the grammar is that one; C11-P: the success skeleton of parse (sequence of "
